@@ -10,9 +10,9 @@ ID = "C16"
 RULE = (
     "KNNSupervisedOPF and UnsupervisedOPF fits as in C13 with max_k >= 2 forced in ~80% of the cases (the suite never exceeds 1). The criterion is observed from outside: "
     "opfython.math.general.opf_accuracy (KNN) and the instance's _normalized_cut (unsupervised) are wrapped to record (subgraph.best_k at call time, value). "
-    "Oracle KNN: candidates are exactly 1..max_k in order, the validation predictions of candidate k equal those of a model built from scratch with that k alone (fresh sub-graph), each recorded accuracy equals the C20 reference on the recorded labels/predictions, best_k == smallest k with the maximal value, "
+    "Oracle KNN: every candidate 1..max_k is evaluated exactly once (in any order), the validation predictions of candidate k equal those of a model built from scratch with that k alone (fresh sub-graph), each recorded accuracy equals the C20 reference on the recorded labels/predictions, best_k == smallest k with the maximal value, "
     "and the final model is built with it (stored min/max density == reference pdf over the best_k smallest distances with the stored constant). "
-    "Oracle unsupervised: each recorded cut equals an independent evaluation of the normalised cut on the live sub-graph (all arcs incl. plateau arcs); candidates are min_k, min_k+1, ... contiguous, stopping early only after a cut == 0.0, best_k == first arg-min, final adjacency length and stored density range consistent with best_k. "
+    "Oracle unsupervised: each recorded cut equals an independent evaluation of the normalised cut on the live sub-graph (all arcs incl. plateau arcs); candidates are distinct values of min_k..max_k, the full range unless some evaluated cut is exactly 0, best_k == smallest evaluated k with the minimal cut, final adjacency length and stored density range consistent with best_k. "
     "non-trivial: >= 2 candidates with >= 2 distinct criterion values and the best is not the first candidate; distinct by case hash"
 )
 ASSUMPTIONS = ["criterion values are taken as the library computes them (accuracy additionally re-computed from the recorded arguments with the C20 reference)"]
@@ -51,7 +51,8 @@ def check_case(case):
     cl = ["model_" + case["model"], "max_k=%d" % case["max_k"]]
     if case["model"] == "knn":
         ks = [c[0] for c in crit]
-        require(ks == list(range(1, case["max_k"] + 1)), "knn:candidates_1_to_max_k", "candidates evaluated: %r, max_k=%d" % (ks, case["max_k"]))
+        # every candidate 1..max_k is evaluated exactly once (the ORDER of evaluation is not part of the statement)
+        require(sorted(ks) == list(range(1, case["max_k"] + 1)), "knn:candidates_1_to_max_k", "candidates evaluated: %r, max_k=%d" % (ks, case["max_k"]))
         vals = [c[1] for c in crit]
         for k, v, lab, pr in crit:
             if all(0 <= p <= max(lab) for p in pr):
@@ -85,7 +86,7 @@ def check_case(case):
             libcall(m2._clustering)
             p2 = [int(x) for x in libcall(m2.predict, fa["Xv"].copy(), None if fa["I_v"] is None else fa["I_v"].copy())]
             require(p2 == pr, "knn:candidate_k_is_the_plain_k_model", lambda: "k=%d: the search loop's validation predictions %r differ from those of a model built from scratch with k=%d: %r" % (k, pr, k, p2))
-        exp = ks[vals.index(max(vals))]
+        exp = min(k_ for k_, v_ in zip(ks, vals) if v_ == max(vals))
         require(best == exp, "knn:smallest_k_with_highest_accuracy", lambda: "best_k=%d, accuracies per k: %r -> expected %d" % (best, list(zip(ks, vals)), exp))
     else:
         ks = [c[0] for c in crit]
@@ -93,12 +94,13 @@ def check_case(case):
         require(all(c[0] == c[2] for c in crit), "unsup:best_k_tracks_candidate", "recorded %r" % crit)
         for bk, v, k_, ref in crit:
             require(abs(v - ref) <= 1e-9 * (1 + abs(ref)), "unsup:criterion_is_normalised_cut", lambda: "k=%d: cut routine returned %r, the normalised cut of the live clustering is %r" % (k_, v, ref))
-        require(len(ks) >= 1 and ks == list(range(case["min_k"], case["min_k"] + len(ks))) and ks[-1] <= case["max_k"], "unsup:candidates_contiguous_from_min_k", "candidates %r, range [%d,%d]" % (ks, case["min_k"], case["max_k"]))
-        if ks[-1] < case["max_k"]:
-            require(vals[-1] == 0.0 or min(vals) == 0.0, "unsup:early_stop_only_after_zero_cut", lambda: "stopped at k=%d of %d with cuts %r" % (ks[-1], case["max_k"], vals))
-            require(0.0 in vals and vals.index(0.0) == len(vals) - 1, "unsup:early_stop_only_after_zero_cut", lambda: "cuts %r" % vals)
+        full = list(range(case["min_k"], case["max_k"] + 1))
+        require(len(ks) >= 1 and len(set(ks)) == len(ks) and set(ks) <= set(full), "unsup:candidates_within_range", "candidates %r, range [%d,%d]" % (ks, case["min_k"], case["max_k"]))
+        if set(ks) != set(full):
+            # evaluation may stop (only) after a cut of exactly 0
+            require(0.0 in vals, "unsup:early_stop_only_after_zero_cut", lambda: "candidates %r of range [%d,%d] evaluated although no cut is 0: %r" % (ks, case["min_k"], case["max_k"], vals))
             cl.append("zero_cut_stop")
-        exp = ks[vals.index(min(vals))]
+        exp = min(k_ for k_, v_ in zip(ks, vals) if v_ == min(vals))
         require(best == exp, "unsup:smallest_k_with_lowest_cut", lambda: "best_k=%d, cuts per k: %r -> expected %d" % (best, list(zip(ks, vals)), exp))
         # final clustering uses best_k: k nearest + plateau arcs
         for i in range(case["nt"]):
@@ -120,7 +122,7 @@ def check_case(case):
             require(nb, "final_clustering_uses_best_k", lambda: "node %d was conquered by %d at distance %r, outside the best_k=%d neighbourhood (radius %r)" % (i, p, r.D[p][i], best, rk[p]))
     if len(set(vals)) == 1 and len(vals) > 1:
         cl.append("all_equal")
-    nt = len(vals) >= 2 and len(set(vals)) >= 2 and best != ks[0]
-    if best != ks[0]:
+    nt = len(vals) >= 2 and len(set(vals)) >= 2 and best != min(ks)
+    if best != min(ks):
         cl.append("best_not_first")
     return Outcome.ok(nontrivial=nt, classes=cl)
